@@ -426,6 +426,7 @@ def run_api(tier='quick', seed=0):
 
 def replay_input(inp):
     """True iff the property HOLDS on this input"""
+    inp = inp.get('input', inp)          # the driver stores the whole failure record of a bounded run
     if inp.get('vehicle') == 'api':
         store_mod = native.import_module('elfi.store')
         return api_case(store_mod, INITS[inp['init']], [tuple(tuple(x) if isinstance(x, list) else x for x in o) for o in inp['seq']]) is None
